@@ -65,3 +65,22 @@ package cmd
 //@   site#pkgs Encode: forall p string :: (p in v3.Packages) <==> (p in v2.Packages)
 //@   loop 0: invariant topOK(v3.Config, v2.V2Config) && v3.Template != nil && *v3.Template == "testify" && tbl != nil && tbl.seenMessages != nil
 //@   loop 0: invariant#pkgs forall p string :: (p in v3.Packages) <==> ((p in v2.Packages) && $visited[p])
+
+// ---- C18: mockery init ----------------------------------------------------------------
+
+// The config file is created exclusively (O_CREATE|O_EXCL, never O_TRUNC): by POSIX, a successful
+// open means no file existed at the path; on failure nothing is written and the command exits 1.
+// The only write goes to that handle, and what is written is the defaults from
+// config.NewDefaultKoanf (the same source the loader uses) plus packages: {<arg>: {config: {all: true}}}.
+//@ func initRun props=C18
+//@   safety fs-frame
+//@   requires len(args) == 1
+//@   let flag = params.GetString("config")
+//@   let cfg = rootConf.Packages[args[0]].Config
+//@   site OpenFile: $0 == 194 && $recv == pathlib.NewPath(flag == "" ? ".mockery.yml" : flag) && called("Encode") == 0
+//@   site#afteropen Encode: lastErr("OpenFile") == nil && called("OpenFile") == 1 && called("NewDefaultKoanf") == 1
+//@   site#once Encode: called("Encode") == 1
+//@   site#content Encode: $0 == box(rootConf) && (args[0] in rootConf.Packages) && (forall p string :: (p in rootConf.Packages) ==> p == args[0])
+//@   site#all Encode: rootConf.Packages[args[0]] != nil && cfg != nil && cfg.All != nil && *cfg.All == true && sameExcept(cfg, zero(config.Config), "All")
+//@   site#noifaces Encode: rootConf.Packages[args[0]].Interfaces != nil && (forall k string :: !(k in rootConf.Packages[args[0]].Interfaces))
+//@   returns#written called("OpenFile") == 1 && called("Encode") == 1 && lastErr("Encode") == nil
